@@ -116,7 +116,9 @@ class JnpGreaterPlugin(PrimitiveLeafPlugin):
         rhs_dtype: np.dtype[Any] = np.dtype(
             getattr(getattr(rhs_var, "aval", None), "dtype", np.float32)
         )
-        target_dtype: np.dtype[Any] = np.promote_types(lhs_dtype, rhs_dtype)
+        target_dtype: np.dtype[Any] = np.dtype(
+            jnp.promote_types(lhs_dtype, rhs_dtype)
+        )
         target_ir = _dtype_to_ir(target_dtype, ctx.builder.enable_double_precision)
 
         lhs_cmp = lhs_val
